@@ -450,6 +450,25 @@ void _dbus_sleep_milliseconds (int milliseconds);
 #ifdef DBUS_VERIF
 DBUS_PRIVATE_EXPORT
 extern void (*_dbus_verif_clock_hook) (int which, long *tv_sec, long *tv_usec);
+
+/* Verification hook for scheduling points: called before every mutex,
+ * condition-variable and poll operation. Returns non-zero if it performed the
+ * operation itself (its outcome is then in *result). */
+typedef enum
+{
+  DBUS_VERIF_OP_CMUTEX_LOCK = 1,
+  DBUS_VERIF_OP_RMUTEX_LOCK,
+  DBUS_VERIF_OP_CMUTEX_UNLOCK,
+  DBUS_VERIF_OP_RMUTEX_UNLOCK,
+  DBUS_VERIF_OP_CONDVAR_WAIT,
+  DBUS_VERIF_OP_CONDVAR_WAIT_TIMEOUT,
+  DBUS_VERIF_OP_CONDVAR_WAKE_ONE,
+  DBUS_VERIF_OP_GLOBAL_LOCK,
+  DBUS_VERIF_OP_GLOBAL_UNLOCK,
+  DBUS_VERIF_OP_POLL
+} DBusVerifOp;
+DBUS_PRIVATE_EXPORT
+extern int (*_dbus_verif_sync_hook) (int op, void *obj, void *obj2, int arg, int arg2, int *result);
 #endif
 
 DBUS_PRIVATE_EXPORT
